@@ -26,10 +26,14 @@ try:
     for d in demos:
         names += re.findall(r"func (Test\w+)\(", open(d).read())
     run = "^(" + "|".join(names) + ")$"
-    rc1, o1 = sh("go test -vet=off -count=1 -run '%s' ./..." % run, cwd=wt, timeout=600)
+    tags = os.environ.get("DEMO_TAGS", "")
+    if not tags and any("go:build verif" in open(d).read() for d in demos): tags = "verif"
+    tagopt = ("-tags %s " % tags) if tags else ""
+    meta["demo_tags"] = tags
+    rc1, o1 = sh("go test %s-vet=off -count=1 -run '%s' ./..." % (tagopt, run), cwd=wt, timeout=600)
     meta["demo_fails_with_patch"] = rc1 != 0
     sh("git apply -R %s" % patch, cwd=wt)
-    rc2, o2 = sh("go test -vet=off -count=1 -run '%s' ./..." % run, cwd=wt, timeout=600)
+    rc2, o2 = sh("go test %s-vet=off -count=1 -run '%s' ./..." % (tagopt, run), cwd=wt, timeout=600)
     meta["demo_passes_without_patch"] = rc2 == 0
     meta["demo_tests"] = names
     if not (rc1 != 0 and rc2 == 0):
